@@ -190,7 +190,7 @@ def check_partials(prog, res):
       _judge(res, fn, '%s|%s' % (name, case.label() or 'generic'),
              k.deltas(), spec['expect'], spec['norm2'])
   res.floor('L1', 14)
-  res.floor('L2', 9)
+  res.floor('L2', 25)
   return n
 
 
@@ -1049,3 +1049,154 @@ def check_A4_strict(prog, res, rule='A4'):
               'strict %s repairs the violation %s but assert_constraints '
               'requires %s >= -eps: different half-spaces' % (label, _fmt(V),
                                                               sl))
+
+
+# ---------------------------------------------------------------------------
+def check_pwl_bounds(prog, res, rule='L2'):
+  """pwl_calibration_lib._project_bounds_considering_monotonicity
+  (increasing case): rational identities in the symbolic height count n.
+  For every (min constraint) x (max constraint) x (violated / feasible) x
+  (bias clipped to min / free) case the executed statements are evaluated
+  over rational functions of b (bias), s (sum of heights), n, m, M:
+    CLAMPED max, or BOUND max when violated:  bias' + s + n*delta == M
+    BOUND max when feasible:                  heights unchanged
+    CLAMPED min:                              bias' == m
+    NONE min with violated/clamped max:       bias and every height move by
+                                              the same amount (the Euclidean
+                                              projection onto bias+sum = M)."""
+  from . import ratfun
+  from .ratfun import Rat
+  fn = prog.function('pwl_calibration_lib._project_bounds_considering_'
+                     'monotonicity')
+  res.analysed(fn)
+  body = fn.node.body
+  # statements after the mirror-recursion block
+  main = [s for s in body if isinstance(s, ast.If) and any(
+      'output_max_constraints' in names_read(s.test) for _ in [0])]
+  top = [s for s in body if isinstance(s, ast.If)
+         and 'output_max_constraints' in names_read(s.test)
+         and 'monotonicity' not in names_read(s.test)]
+  if not top:
+    raise AnalysisError('%s: bounds dispatch not found' % fn.qualname)
+  top = top[-1]
+  n_cases = 0
+  for cmin in ('NONE', 'BOUND', 'CLAMPED'):
+    for cmax in ('NONE', 'BOUND', 'CLAMPED'):
+      for violated in (True, False):
+        for bias_clipped in (False, True):
+          if cmax == 'NONE' and not violated:
+            continue
+          if cmin != 'BOUND' and bias_clipped:
+            continue
+          if cmax == 'CLAMPED' and not violated:
+            continue   # clamped max moves in both directions: one case
+          env = {'bias': Rat.sym('b'), 'sum_heights': Rat.sym('s'),
+                 'num_heights': Rat.sym('n'), 'output_min': Rat.sym('m'),
+                 'output_max': Rat.sym('M')}
+          state = {'dh': Rat.const(0), 'clipped_min': False}
+
+          def enum_test(t):
+            """evaluates `x_constraints ==/!= bct.KIND` tests"""
+            if isinstance(t, ast.Compare) and len(t.ops) == 1:
+              l = dotted(t.left)
+              r = dotted(t.comparators[0])
+              if l in ('output_min_constraints', 'output_max_constraints') \
+                  and r:
+                cur = cmin if 'min' in l else cmax
+                eq = r.split('.')[-1] == cur
+                return eq if isinstance(t.ops[0], ast.Eq) else (not eq)
+            raise AnalysisError('%s: test %s' % (fn.loc(t), norm_text(t)))
+
+          def ev(e):
+            if isinstance(e, ast.Call):
+              ext = prog.ext_name(fn.module, e.func) or dotted(e.func)
+              if ext == 'tf.constant':
+                return ev(e.args[0])
+              if ext in ('tf.minimum', 'tf.math.minimum') and const_value(
+                  e.args[1]) == 0.0:
+                return ev(e.args[0]) if violated else Rat.const(0)
+              if ext in ('tf.maximum', 'tf.math.maximum'):
+                a, b2 = e.args
+                if dotted(b2) == 'output_min':
+                  state['clipped_min'] = True
+                  return Rat.sym('m') if bias_clipped else ev(a)
+              if ext == 'tf.reduce_sum' and dotted(e.args[0]) == 'heights':
+                return Rat.sym('s')
+              if ext == 'float':
+                return Rat.sym('n')
+              raise AnalysisError('%s: call %s' % (fn.loc(e),
+                                                   norm_text(e)[:40]))
+            if isinstance(e, ast.BinOp):
+              l, r = ev(e.left), ev(e.right)
+              if isinstance(e.op, ast.Add):
+                return l + r
+              if isinstance(e.op, ast.Sub):
+                return l - r
+              if isinstance(e.op, ast.Mult):
+                return l * r
+              if isinstance(e.op, ast.Div):
+                return l / r
+            if isinstance(e, ast.Constant):
+              return Rat.const(Fraction(e.value))
+            d = dotted(e)
+            if d in env:
+              return env[d]
+            raise AnalysisError('%s: %s' % (fn.loc(e), norm_text(e)[:40]))
+
+          def run(stmts):
+            for st in stmts:
+              if isinstance(st, ast.If):
+                run(st.body if enum_test(st.test) else st.orelse)
+              elif isinstance(st, ast.Assign):
+                nm = dotted(st.targets[0])
+                if nm == 'bct':
+                  continue
+                env[nm] = ev(st.value)
+              elif isinstance(st, ast.AugAssign):
+                nm = dotted(st.target)
+                v = ev(st.value)
+                if nm == 'heights':
+                  state['dh'] = state['dh'] + v
+                elif isinstance(st.op, ast.Add):
+                  env[nm] = env[nm] + v
+                else:
+                  raise AnalysisError('%s: augmented op' % fn.loc(st))
+              elif isinstance(st, ast.Expr):
+                continue
+              else:
+                raise AnalysisError('%s: statement' % fn.loc(st))
+          run([top])
+          n_cases += 1
+          b1 = env['bias']
+          dh = state['dh']
+          last = b1 + Rat.sym('s') + Rat.sym('n') * dh
+          key = 'pwl-bounds|min=%s,max=%s,%s%s' % (
+              cmin, cmax, 'violated' if violated else 'feasible',
+              ',bias-clipped' if bias_clipped else '')
+          probs = []
+          if cmax != 'NONE' and (cmax == 'CLAMPED' or violated):
+            if not last.equals(Rat.sym('M')):
+              probs.append('last keypoint output becomes %s, not output_max' %
+                           last)
+          if cmax == 'BOUND' and not violated and not dh.equals(Rat.const(0)):
+            probs.append('a feasible kernel has its heights moved by %s' % dh)
+          if cmax == 'NONE' and not dh.equals(Rat.const(0)):
+            probs.append('heights move by %s although there is no upper '
+                         'bound' % dh)
+          if cmin == 'CLAMPED' and not b1.equals(Rat.sym('m')):
+            probs.append('clamped minimum: bias becomes %s, not output_min' %
+                         b1)
+          if cmin == 'NONE' and cmax != 'NONE' and (
+              cmax == 'CLAMPED' or violated):
+            db = b1 - Rat.sym('b')
+            if not db.equals(dh):
+              probs.append('bias moves by %s but each height by %s: not the '
+                           'equal-share Euclidean projection' % (db, dh))
+          if cmin == 'BOUND' and bias_clipped and not b1.equals(Rat.sym('m')):
+            probs.append('bias below output_min is not raised to it')
+          if cmin == 'NONE' and cmax == 'NONE':
+            if not b1.equals(Rat.sym('b')):
+              probs.append('unbounded: bias changes')
+          res.check(not probs, rule, key, fn.loc(top),
+                    'bias\' = %s, heights += %s' % (b1, dh), '; '.join(probs))
+  return n_cases
